@@ -383,7 +383,7 @@ fn value_tok(rng: &mut Rng) -> String {
         2 => "0".into(),
         3 => rng.pick(&["0.05", "0.01", "-0.01", "1", "-1"]).to_string(),
         // large magnitudes: the product with the scale factor overflows for some factors
-        4 => {
+        4 | 5 => {
             let e = rng.range(20, 26) as u32;
             let m = rng.range(1, 79);
             let s = format!("{}{}", m, "0".repeat(e as usize));
@@ -523,7 +523,7 @@ fn sheet_case(rng: &mut Rng, out: &mut Out, tier: &str) {
     out.line(format!("init {t0}"));
     let len = rng.range(0, if tier == "thorough" { 40 } else { 20 });
     // bias of the history
-    let bias = rng.below(6);
+    let bias = *rng.pick(&[0u64, 1, 2, 3, 3, 4, 4, 4, 4, 4, 5]);
     // entry notionals with finite decimal expansions of 1/notional, so that every return is an exact
     // `Decimal` (the comparison `mean == risk_free` of the zero-risk branch is then not decided by
     // rounding noise)
